@@ -138,14 +138,21 @@ static void step(Inst *x) {
     }
     x->rcs[s] = rc;
 }
+#include <pthread.h>
+static void *par_thread(void *x_) { Inst *x = (Inst *)x_; while (x->step < 7) step(x); return NULL; }
 int main(int argc, char **argv) {
-    const char *script = "AAAAAAA", *a = NULL, *b = NULL;
+    const char *script = "AAAAAAA", *a = NULL, *b = NULL; int par = 0;
     for (int i = 1; i < argc; i++) {
         if (!strncmp(argv[i], "script=", 7)) script = argv[i] + 7; else if (!strncmp(argv[i], "a=", 2)) a = argv[i] + 2; else if (!strncmp(argv[i], "b=", 2)) b = argv[i] + 2;
+        else if (!strncmp(argv[i], "par=", 4)) par = atoi(argv[i] + 4);
     }
     vs_init();
     if (a) parse(&I[0], a);
     if (b) parse(&I[1], b);
+    if (par) { /* free-running: both sessions truly concurrent on two application threads (race detector run) */
+        pthread_t t[2]; pthread_create(&t[0], NULL, par_thread, &I[0]); pthread_create(&t[1], NULL, par_thread, &I[1]);
+        pthread_join(t[0], NULL); pthread_join(t[1], NULL);
+    } else
     for (const char *p = script; *p; p++) { Inst *x = &I[*p == 'B']; if (x->step < 7) step(x); }
     vs_fini();
     for (int k = 0; k < 2; k++) {
